@@ -2524,6 +2524,16 @@ func (l *channelLink) UpdateForwardingPolicy(
 	l.cfg.FwrdingPolicy = newPolicy
 }
 
+// getInboundFee returns the inbound fee of the link's current forwarding
+// policy. The policy may be updated concurrently via UpdateForwardingPolicy, so
+// it must be read with the link's mutex held.
+func (l *channelLink) getInboundFee() models.InboundFee {
+	l.RLock()
+	defer l.RUnlock()
+
+	return l.cfg.FwrdingPolicy.InboundFee
+}
+
 // CheckHtlcForward should return a nil error if the passed HTLC details
 // satisfy the current forwarding policy fo the target link. Otherwise,
 // a LinkError with a valid protocol failure message should be returned
@@ -3334,7 +3344,7 @@ func (l *channelLink) processRemoteAdds(fwdPkg *channeldb.FwdPkg) {
 				// round of processing.
 				chanIterator.EncodeNextHop(buf)
 
-				inboundFee := l.cfg.FwrdingPolicy.InboundFee
+				inboundFee := l.getInboundFee()
 
 				//nolint:ll
 				updatePacket := &htlcPacket{
@@ -3412,7 +3422,7 @@ func (l *channelLink) processRemoteAdds(fwdPkg *channeldb.FwdPkg) {
 			// have been added to switchPackets at the top of this
 			// section.
 			if fwdPkg.State == channeldb.FwdStateLockedIn {
-				inboundFee := l.cfg.FwrdingPolicy.InboundFee
+				inboundFee := l.getInboundFee()
 
 				//nolint:ll
 				updatePacket := &htlcPacket{
